@@ -5,6 +5,7 @@ the DDict hash-set probe (the frame header's dictID is attacker-controlled) and 
 -/
 import ZstdVerif.Model.DDictHS
 import ZstdVerif.Model.Bits
+import ZstdVerif.Lemmas.ExecRT
 namespace ZstdVerif.Props.C03
 open ZstdVerif ZstdVerif.DDictHS ZstdVerif.Gen.DDictHS
 
@@ -58,5 +59,53 @@ theorem bitreader_overread_is_error (r : BitR) (n : Nat) (h : r.left < n) : ((r.
 
 example : (afterAdd 16 64) = (17, 128) := by decide
 example : probeGet { k := 2, slots := [some 5, some 9, none, some 1], count := 3 } 7 4 0 = some 2 := by decide
+
+
+/-! ### the decoder model, on ANY bytes: result within the capacity, earlier output never rewritten, no out-of-range access in the executor
+
+`Frame.decompressAll` is the model of ZSTD_decompress / ZSTD_decompressDCtx / _usingDict (tied to them on every mutant of every run).
+The theorems below hold for every byte string, dictionary and capacity - no validity hypothesis. -/
+
+/-- **decompress_within_capacity**: whatever the input, a successful single-call decode returns at most `cap` bytes -/
+theorem decompress_within_capacity {src : Bytes} {dict : Frame.Dict} {cap : Nat} {o : Frame.Opts} {res : ByteArray × Array Frame.FrameTrace}
+    (h : Frame.decompressAll src dict cap o = .ok res) : res.1.size ≤ cap :=
+  Frame.decompressAll_within_capacity h
+
+/-- one frame: the result stays within the capacity and extends the output that was already there (nothing behind the write
+position of an earlier frame is ever rewritten) -/
+theorem decompressFrame_within_capacity {src : Bytes} {ip0 rem : Nat} {dict : Frame.Dict} {out0 : ByteArray} {cap : Nat} {o : Frame.Opts}
+    {res : ByteArray × Nat × Frame.FrameTrace}
+    (h : Frame.decompressFrame src ip0 rem dict out0 cap o = .ok res) (h0 : out0.size ≤ cap) :
+    res.1.size ≤ cap ∧ ∃ t : ByteArray, res.1 = out0 ++ t :=
+  Frame.decompressFrame_within_capacity h h0
+
+/-- one compressed block (ZSTD_decompressBlock_internal), any bytes, any entropy state -/
+theorem decodeBlock_within_capacity {src : Bytes} {start cSize : Nat} {ent : Block.Entropy} {dict : Bytes} {o : Block.Out} {bsm : Nat}
+    {out : ByteArray} {e : Block.Entropy} {tr : Block.Trace}
+    (h : Block.decodeBlock src start cSize ent dict o bsm = .ok (out, e, tr)) :
+    out.size ≤ max o.cap o.out.size ∧ ∃ t : ByteArray, out = o.out ++ t :=
+  Block.decodeBlock_within_capacity h
+
+/-- a decodable prefix of a frame (what a completed flush exposes) likewise -/
+theorem decompressPrefix_within_capacity {src : Bytes} {dict : Frame.Dict} {cap : Nat} {o : Frame.Opts} {out : ByteArray}
+    (h : Frame.decompressPrefix src dict cap o = .ok out) : out.size ≤ cap :=
+  Frame.decompressPrefix_within_capacity h
+
+/-- **exec_no_oob**: the three checks of ZSTD_execSequence (room for literals + match, literals available, offset within history +
+dictionary) are sufficient: with them, the executor that FAILS on any out-of-range read of the output, the dictionary or the literals
+never fails - it computes exactly what the unchecked executor computes - for every sequence list with non-zero offsets ... -/
+theorem exec_no_oob (dict lits : ByteArray) (o : Exec.Out) (seqs : List Exec.Seq) (chk : R Unit) (h1 : ∀ s ∈ seqs, 1 ≤ s.offset) :
+    Exec.runChecked dict o lits seqs chk = some (Exec.run dict o lits seqs chk) :=
+  Exec.exec_no_oob dict lits o seqs chk h1
+
+/-- ... and the sequence decoder only ever produces non-zero offsets from a non-zero repeat-offset history (a zero taken from a
+corrupted history becomes 2^64-1, which the executor's offset check refuses), so the hypothesis of `exec_no_oob` is met by
+whatever bit stream and tables the block carries -/
+theorem exec_decoded_no_oob (dict lits : ByteArray) (o : Exec.Out) (chk : R Unit)
+    (llT ofT mlT : Array Gen.SeqCell) (nbSeq sLL0 sOF0 sML0 : Nat) (r0 : BitR) (rep0 : Array Nat)
+    (h0 : 1 ≤ rep0[0]!) (h1 : 1 ≤ rep0[1]!) (h2 : 1 ≤ rep0[2]!) :
+    Exec.runChecked dict o lits (Block.decodeSeqs llT ofT mlT nbSeq sLL0 sOF0 sML0 r0 rep0).seqs.toList chk =
+      some (Exec.run dict o lits (Block.decodeSeqs llT ofT mlT nbSeq sLL0 sOF0 sML0 r0 rep0).seqs.toList chk) :=
+  Block.exec_decoded_no_oob dict lits o chk llT ofT mlT nbSeq sLL0 sOF0 sML0 r0 rep0 h0 h1 h2
 
 end ZstdVerif.Props.C03
